@@ -44,7 +44,7 @@ Fx(r, w) == (w * r.num * UNIT) \div r.den                 \* datum -> fixed poin
 Elems(r) == IF NodeMode(r) THEN ToSet(r.nodes) ELSE ToSet(r.edges)
 Datum(r, x) == IF NodeMode(r) THEN r.nw[NodeIdx(r, x)] ELSE r.ew[EdgeIdx(r, x)]
 HasDatum(r, x) == Datum(r, x) # NONE
-Ignored(r) == ToSet(r.ign) \cup {t[1] : t \in {s \in ToSet(r.escale) : s[2] = 0}}
+Ignored(r) == ToSet(r.ign) \cup {t[1] : t \in {s \in ToSet(r.escale) : s[2] = 0}} \cup PctIgnored(r)
 (* the elements whose value must be explained / covered *)
 Required(r) == IF r.cls \in CoverCls
                THEN Elems(r) \ Ignored(r)
